@@ -215,6 +215,10 @@ pub fn glob_parse(p: &str) -> Option<Vec<GTok>> {
                     j += 1;
                 }
                 let start = j;
+                // as in every shell, a ']' in first position is a member, not the end of the set
+                if j < cs.len() && cs[j] == ']' {
+                    j += 1;
+                }
                 while j < cs.len() && cs[j] != ']' {
                     j += 1;
                 }
